@@ -239,9 +239,49 @@ type scen struct {
 	kills    bool
 	eventual bool
 	directed string // "" | race3 | emptybody: a scripted interleaving over a forced file set
+	// deterministic sweeps of the thorough tier
+	small       bool  // the forced small file set (one week, two program builds)
+	sweepKill   int   // kill thread 0 after this many calls (0 = no)
+	fixedStatus int   // every request gets this status (-1 = per scenario distribution)
+	sweepSegs   []int // fixed segments for the bounded-context-switch policy
+}
+
+var sweeps []scen
+
+func buildSweeps() {
+	if tag == "c08" {
+		for k := 1; k <= 26; k++ {
+			for _, st := range []int{200, 404, 503, 0} {
+				sweeps = append(sweeps, scen{kind: "killsweep", nthreads: 2, policy: "seq", outcomes: "fixed",
+					small: true, sweepKill: k, fixedStatus: st})
+			}
+		}
+		return
+	}
+	for i := 0; i <= 35; i++ {
+		sweeps = append(sweeps, scen{kind: "switchsweep", nthreads: 2, policy: "switch", outcomes: "all200",
+			small: true, fixedStatus: -1, sweepSegs: []int{i, 1 << 20}})
+	}
+	for i := 2; i <= 26; i += 3 {
+		for j := 1; j <= 25; j += 3 {
+			sweeps = append(sweeps, scen{kind: "switchsweep2", nthreads: 2, policy: "switch", outcomes: "all200",
+				small: true, fixedStatus: -1, sweepSegs: []int{i, j, 1 << 20}})
+		}
+	}
 }
 
 func pickScen() scen {
+	if len(sweeps) > 0 {
+		s := sweeps[0]
+		sweeps = sweeps[1:]
+		return s
+	}
+	sc := pickScen1()
+	sc.fixedStatus = -1
+	return sc
+}
+
+func pickScen1() scen {
 	if tag == "c07" && rnd.Chance(4) {
 		return scen{kind: "race3", nthreads: 3, policy: "directed", outcomes: "all200", directed: "race3"}
 	}
@@ -340,7 +380,7 @@ func scenario() {
 	}
 	defer os.RemoveAll(dir)
 	// a telemetry directory whose PATH contains a date (notNeeded searches the path)
-	datedDir := tag == "c07" && sc.directed == "" && rnd.Chance(3)
+	datedDir := tag == "c07" && sc.directed == "" && !sc.small && rnd.Chance(3)
 	var datedBase time.Time
 	if datedDir {
 		datedBase = time.Date(2024, 1, 1, 0, 0, 0, 0, time.UTC).Add(time.Duration(rnd.Intn(300)) * day)
@@ -365,7 +405,7 @@ func scenario() {
 	if tag == "c08" {
 		modeOn = rnd.Chance(95)
 	}
-	forced := sc.directed != ""
+	forced := sc.directed != "" || sc.small
 	if forced {
 		modeOn = true
 	}
@@ -728,6 +768,9 @@ func scenario() {
 	for i := range killAt {
 		killAt[i] = -1
 	}
+	if sc.sweepKill > 0 {
+		killAt[0] = sc.sweepKill
+	}
 	if sc.kills {
 		nk := 1 + rnd.Intn(2)
 		for k := 0; k < nk; k++ {
@@ -779,6 +822,9 @@ func scenario() {
 			if sc.eventual && i == nth-1 {
 				nextStatus = 200
 			}
+			if sc.fixedStatus >= 0 {
+				nextStatus = sc.fixedStatus
+			}
 			act = "step " + outcomeTag(nextStatus)
 			out.Note("post-" + outcomeTag(nextStatus))
 		}
@@ -819,8 +865,12 @@ func scenario() {
 		last := -1
 		var segs []int
 		if policy == "switch" {
-			for k := 0; k < 2+rnd.Intn(3); k++ {
-				segs = append(segs, rnd.Intn(25))
+			if sc.sweepSegs != nil {
+				segs = append(segs, sc.sweepSegs...)
+			} else {
+				for k := 0; k < 2+rnd.Intn(3); k++ {
+					segs = append(segs, rnd.Intn(25))
+				}
 			}
 		}
 		segThread := 0
@@ -841,6 +891,10 @@ func scenario() {
 				i = cand[0]
 			case "switch":
 				// a few bounded segments, then each thread to completion
+				for len(segs) > 0 && segs[0] <= 0 {
+					segs = segs[1:]
+					segThread++
+				}
 				if len(segs) > 0 {
 					i = cand[segThread%len(cand)]
 					segs[0]--
@@ -952,6 +1006,9 @@ func main() {
 	}
 	rnd = NewRand(Seed())
 	out = NewOut(outPath)
+	if os.Getenv("VERIF_TIER") == "thorough" {
+		buildSweeps()
+	}
 	var err error
 	root, err = os.MkdirTemp("", "vh_upload")
 	if err != nil {
